@@ -237,6 +237,9 @@ CONFIGS = {
     'rect_nogo_cw': dict(prop=[[(0.0, 0.0), (48.0, 0.0), (48.0, 32.0), (0.0, 32.0)]], nogo=[[(16.0, 24.0), (32.0, 24.0), (32.0, 8.0), (16.0, 8.0)]]),      # clockwise no-go zone
     # slanted edges, no no-go zone: the cut-out of finer grids is not monotone in the borehole count, the lists rely on the final re-ordering
     'kite_free': dict(prop=[[(0.0, 15.0), (30.0, 0.0), (50.0, 20.0), (20.0, 40.0)]], nogo=[]),
+    # outlines and zones given as closed rings (first vertex repeated), the zone clockwise
+    'closed_rings': dict(prop=[[(0.0, 0.0), (48.0, 0.0), (48.0, 32.0), (0.0, 32.0), (0.0, 0.0)]],
+                         nogo=[[(16.0, 24.0), (32.0, 24.0), (32.0, 8.0), (16.0, 8.0), (16.0, 24.0)]]),
     'convex_offset': dict(prop=[[(5.0, 3.0), (38.0, 0.0), (46.0, 22.0), (25.0, 41.0), (2.0, 30.0)]], nogo=[[(20.0, 12.0), (28.0, 12.0), (28.0, 20.0)]]),
     'U_two_nogo': dict(prop=[[(0.0, 0.0), (50.0, 0.0), (50.0, 40.0), (35.0, 40.0), (35.0, 15.0), (15.0, 15.0), (15.0, 40.0), (0.0, 40.0)]],
                        nogo=[[(3.0, 3.0), (9.0, 3.0), (9.0, 9.0), (3.0, 9.0)], [(40.0, 20.0), (47.0, 20.0), (47.0, 30.0), (40.0, 30.0)]]),
@@ -249,7 +252,7 @@ def units(tier, seed):
     AS = ['polygons concrete; floats as reals for the spacing arithmetic; classification of concrete grid points natively in binary64',
           'lots admit three rows at the maximum spacing']
     us = []
-    names = list(CONFIGS) if tier == 'thorough' else ['L_shape', 'rect_nogo', 'rect_nogo_cw', 'two_outlines_cw', 'two_outlines_small_last', 'kite_free', 'convex_offset']
+    names = list(CONFIGS) if tier == 'thorough' else ['L_shape', 'rect_nogo', 'rect_nogo_cw', 'two_outlines_cw', 'two_outlines_small_last', 'kite_free', 'closed_rings', 'convex_offset']
     rng = (5.0, 10.0, 20.0) if tier == 'quick' else (3.0, 12.0, 25.0)
     for nm in names:
         c = CONFIGS[nm]
